@@ -72,6 +72,28 @@ def rebuild(v):
     return v
 
 
+def single_field_deviations(d):
+    yield "filename", d.filename + "x"
+    yield "first_line_number", d.first_line_number + 1
+    yield "name", d.name + "x"
+    yield "stacksize", d.stacksize + 1
+    yield "type", (None if d.type is not None else Function(Args()))
+    if d.type is not None:
+        yield "type", dataclasses.replace(d.type, docstring=(d.type.docstring or "") + "x")
+        yield "type", dataclasses.replace(d.type, type="GENERATOR" if d.type.type != "GENERATOR" else "COROUTINE")
+        yield "type", dataclasses.replace(d.type, args=dataclasses.replace(d.type.args, keyword_only=d.type.args.keyword_only + ("zz_k",)))
+    yield "freevars", d.freevars + ("zz_free",)
+    yield "future_annotations", not d.future_annotations
+    yield "_nested", not d._nested
+    yield "_additional_line", (AdditionalLine(7) if d._additional_line is None else None)
+    yield "_additional_args", d._additional_args + (Name("zz_extra"),)
+    if d.blocks and d.blocks[0]:
+        i0 = d.blocks[0][0]
+        yield "blocks", ((dataclasses.replace(i0, line_number=(i0.line_number or 0) + 1),) + d.blocks[0][1:],) + d.blocks[1:]
+        yield "blocks", ((dataclasses.replace(i0, _n_args_override=3),) + d.blocks[0][1:],) + d.blocks[1:]
+        yield "blocks", ((dataclasses.replace(i0, _line_offsets_override=(1,)),) + d.blocks[0][1:],) + d.blocks[1:]
+
+
 def oracle_class(v):
     """Reference partition of constants: CPython's _PyCode_ConstantKey with NaNs
     merged (3.7-3.10); the harness's strict key with NaNs identified elsewhere.  On
@@ -342,6 +364,10 @@ class C08(Monitor):
                     row.append(("json-normalized", CodeData.from_json_data(json_cycle(n.to_json_data()))))
                     row.append(("rebuilt", rebuild(d1)))
                     row.append(("decode-of-encode", CodeData.from_code(d1.to_code())))
+                    # one-field deviations: a value differing in exactly one field is a
+                    # different value (it encodes to a different code object)
+                    for fname, nv in single_field_deviations(d1):
+                        row.append(("deviate:" + fname, dataclasses.replace(d1, **{fname: nv})))
                 except Exception as e:
                     pass  # other properties' business; compare what exists
                 V.append([(r, v, skey(v, True)) for r, v in row])
@@ -364,6 +390,9 @@ class C08(Monitor):
                 return
             for j, row in enumerate(V):
                 for (rj, y, ky) in row:
+                    # single-field deviations are compared within their own program
+                    if j != i and (ri.startswith("deviate:") or rj.startswith("deviate:")):
+                        continue
                     stats.evaluations += 1
                     want = kx == ky
                     try:
